@@ -9,20 +9,22 @@ MANIFEST = {
             "(induction over the five walkers of lib.rs); C08_separator_sound / C08_no_spurious_separator (separator table of "
             "output.rs, both directions). The full statement incl. meaningful whitespace (C08_conforms_full: both outputs "
             "conform to the grammar-directed specification CssSpec.expected) is REFUTED by the model of the current code "
-            "(C08_conforms_refuted) with one machine-checked witness per known class D13/D14/D15/D23. Each run: the extracted "
+            "(C08_conforms_refuted) with machine-checked witnesses for the remaining classes D15 and D27; the witnesses of the "
+            "repaired classes D13/D14/D23 are proved to conform now (C08_fixed_D13_D14_D23_conform). Each run: the extracted "
             "model and the real crate process the same generated stylesheets (model agreement is byte-exact: text, source "
             "map, warnings) and the re-tokenised implementation output is checked against CssSpec.expected/conforms outside "
             "the known classes.",
     "note": "NOT proved: the conditional whitespace theorem (model conforms to `expected` for every well-formed sheet outside "
             "the known classes) — that part rests on the differential run (spec evaluated on the implementation's output for "
-            "every generated sheet). cssparser's tokenizer/serializer are the oracle (trusted). Known findings D13 D14 D15 "
-            "D23 D24 D26 are listed in known_findings.json with narrow decidable classes (CssSpec.known).",
+            "every generated sheet). cssparser's tokenizer/serializer are the oracle (trusted). Known findings D15 D24 D26 D27 "
+            "D28 are listed in known_findings.json with narrow decidable classes (CssSpec.known); D13 D14 D23 were repaired "
+            "in /repo and sheets of those former classes are checked against the specification like all others.",
     "technique": "Coq proof by induction over token trees (token preservation, separator table) + refutation witnesses by "
                  "vm_compute + model/implementation correspondence and executable-spec conformance via extracted OCaml",
 }
 
 THEOREMS = ["C08_separator_sound", "C08_no_spurious_separator", "C08_tokens_preserved", "C08_conforms_refuted",
-            "C08_witness_D13", "C08_witness_D14", "C08_witness_D15", "C08_witness_D23"]
+            "C08_witness_D15", "C08_witness_D27", "C08_fixed_D13_D14_D23_conform"]
 
 
 def run(res):
